@@ -1,12 +1,15 @@
 import BigDec.Proofs.Cmp
+import BigDec.Proofs.EstCode
 /-! # C02 — equality and ordering are those of the numeric values
 
 `eqDec` / `cmpDec` model `check_equality_bigdecimal_ref` and `Ord for BigDecimalRef` with every
 path of the source: sign cases, `checked_diff` (scale differences ≥ 2^63), the bit-length
 prefilter (f64 product as the parameter `pre`), the u32-limb loop with its `u64` overflow checks
 and allocating fall-back, the digit-wise path, the u64/u128 scalar fast paths, digit-count
-comparison and the most-significant-first digit loop.  `Small d` = fewer than 2^64 bits and 2^63
-decimal digits. -/
+comparison and the most-significant-first digit loop.  `Small d` = fewer than 2^40 bits (128 GiB).
+The theorems are stated for every estimate `pre` satisfying the scalar condition `PreOK`, and
+`C02_pre_code` proves that condition for the code's own f64 product (modelled through the rounding
+primitive of C14), so the `…_code` corollaries carry no premise about floating point. -/
 namespace BigDec
 
 /-- **`==` (and `!=`) is equality of the denoted rationals**, however each side is represented -/
@@ -42,7 +45,21 @@ theorem C02_trans {pre : Nat → Nat} (hp : PreOK pre) (a b c : Dec) (ha : Small
 
 /-- the real-valued prefilter `⌊log₂ 10^k⌋` satisfies the scalar condition `PreOK` -/
 theorem C02_pre_real : PreOK (fun k => Nat.log 2 (10 ^ k)) := by
-  intro k; exact Nat.pow_log_le_self 2 (by positivity)
+  intro k _
+  exact le_trans (Nat.pow_le_pow_right (by norm_num) (Nat.sub_le _ _)) (Nat.pow_log_le_self 2 (by positivity))
+
+/-- **the code's f64 product satisfies the scalar condition**: `(LOG2_10 * k as f64) as u64`, lowered
+    by one as the code does, never exceeds `log2 10^k` for scale differences up to 2^40.  (Without the
+    lowering it is false at k = 178 898 934 - defect F16, repaired in /repo.) -/
+theorem C02_pre_code : PreOK F64.preCode := preCode_PreOK
+
+/-- `==` with the code's own estimate is equality of values -/
+theorem C02_eq_iff_code (l r : Dec) (hl : Small l) (hr : Small r) :
+    eqDec F64.preCode l r = true ↔ l.value = r.value := eqDec_spec C02_pre_code l r hl hr
+
+/-- `cmp` with the code's own estimate is the order of ℚ -/
+theorem C02_cmp_spec_code (l r : Dec) (hl : Small l) (hr : Small r) :
+    cmpDec F64.preCode l r = compare l.value r.value := cmpDec_spec C02_pre_code l r hl hr
 
 /-- no unchecked machine arithmetic: whenever the limb loop keeps going, the product-plus-carry it
     computed fits a `u64` (the model bails out to the allocating comparison otherwise), so the
@@ -56,7 +73,7 @@ theorem C02_limb_loop_guarded (pow a b carry : Nat) (as bs : List Nat) (r : Bool
 
 /-- the fall-back after a bail-out is the exact comparison -/
 theorem C02_eqScaled {pre : Nat → Nat} (hp : PreOK pre) (A B k : Nat) (hA : A ≠ 0) (hB : B ≠ 0)
-    (hbits : bits A < 2 ^ 64) : eqScaled pre A B k = true ↔ A = B * 10 ^ k := eqScaled_spec hp A B k hA hB hbits
+    (hbits : bits A < 2 ^ 40) : eqScaled pre A B k = true ↔ A = B * 10 ^ k := eqScaled_spec hp A B k hA hB hbits
 
 /-- the exact oracle of the correspondence check is the order of ℚ -/
 theorem C02_oracle (x y : Dec) : Spec.valueCmp x y = compare x.value y.value := valueCmp_eq x y
